@@ -88,6 +88,9 @@ def type_of(v, reg=None):
     if type(v).__name__ == "SDictV":
         from .dicts import TDict
         return TDict()
+    if type(v).__name__ == "SRef":
+        from .refs import TRef
+        return TRef(v.model, v.reg)
     if type(v).__name__ == "SArr":
         from .arrays import TArr
         return TArr(str(v.ndim) if isinstance(v.ndim, int) else "?", v.dtype)
@@ -227,6 +230,12 @@ def eq(a, b, ctx):
         return a is b
     if isinstance(a, SOpaque) and isinstance(b, SOpaque):
         return a.t == b.t
+    if isinstance(a, SSlice) and isinstance(b, SSlice):
+        return z_and(zb(eq(a.start, b.start, ctx)), zb(eq(a.stop, b.stop, ctx)))
+    if type(a).__name__ == "SSliceDict" and type(b).__name__ == "SSliceDict":
+        return z3.And(a.dom == b.dom, a.start == b.start, a.stop == b.stop)
+    if type(a).__name__ == "SRef" and type(b).__name__ == "SRef":
+        return a.t == b.t if a.model is b.model else False
     if type(a).__name__ == "SArr" and type(b).__name__ == "SArr":
         from .arrays import arr_eq
         return arr_eq(a, b, ctx)
